@@ -232,6 +232,7 @@ func c04Absolute(cfg Config, res *Result, rng *RNG) {
 func suiteC04(cfg Config, res *Result) {
 	defer c04Shared(res)
 	defer c04ReservedNames(res)
+	defer bytesBelongToCaller(res, "history", "c04-bytes-owner")
 	defer reentrancy(res, "history", "c04-reentrant-execution")
 	defer c04EqualErrors(res)
 	defer c04PairOrder(res)
